@@ -1,8 +1,10 @@
 (* C15 - Scalar operators form a consistent arithmetic and ordering.
    Property theorems only; every proof is `exact <lemma>`.
-   `registry` is Gen/ScalarOps.v, REGENERATED from the live yaql registry on every run
+   `registry_of cf` is Gen/ScalarOps.v, REGENERATED from the live yaql registry on every run,
+   once per configuration cf whose options touch dispatch (default engine and context; engine
+   option yaql.iterableDicts; legacy factory + legacy context) - every theorem holds for all three
    (acceptance rows = live value_type.check per kind; specialization = the runner's own
-   relation); `dispatch` is the model of runner.choose_overload; `ev F fo o args` evaluates
+   relation); `dispatch` is the model of runner.choose_overload; `ev cf F fo o args` evaluates
    `a OP b` = dispatch over the regenerated rows, then the payload model (Model/Scalars.v).
    F/fo (floats and their operations) are universally quantified: nothing is assumed about
    them except where a theorem lists hypotheses. *)
@@ -16,77 +18,77 @@ Import ListNotations.
    expected payload or NoMatch (expected2 never says Ambiguous): numbers with numbers,
    strings with strings, the three null overloads of the ordering operators, repetition
    with a genuine integer only, `=`/`!=` for everything, NoMatch for unrelated kinds *)
-Theorem C15_dispatch_table : forall o a b, In o binary_ops -> In a grid_kinds -> In b grid_kinds ->
-  dispatch (registry o) [a; b] = expected2 o a b.
+Theorem C15_dispatch_table : forall cf o a b, In o binary_ops -> In a grid_kinds -> In b grid_kinds ->
+  dispatch (registry_of cf o) [a; b] = expected2 o a b.
 Proof. exact dispatch_table2. Qed.
 
-Theorem C15_dispatch_table_unary : forall o a, In o unary_ops -> In a grid_kinds ->
-  dispatch (registry o) [a] = expected1 o a.
+Theorem C15_dispatch_table_unary : forall cf o a, In o unary_ops -> In a grid_kinds ->
+  dispatch (registry_of cf o) [a] = expected1 o a.
 Proof. exact dispatch_table1. Qed.
 
 (* at most ONE registered overload accepts such a pair: the outcome cannot depend on the
    order in which the runner enumerates the layer, nor on the specialization rule *)
-Theorem C15_dispatch_unique : forall o a b, In o binary_ops -> In a grid_kinds -> In b grid_kinds ->
-  length (acceptors (registry o) [a; b]) <= 1.
+Theorem C15_dispatch_unique : forall cf o a b, In o binary_ops -> In a grid_kinds -> In b grid_kinds ->
+  length (acceptors (registry_of cf o) [a; b]) <= 1.
 Proof. exact dispatch_unique2. Qed.
 
-Theorem C15_never_ambiguous : forall F fo o x y, In o binary_ops ->
-  In (kind_of F x) grid_kinds -> In (kind_of F y) grid_kinds -> ev F fo o [x; y] <> RErr EAmbiguous.
+Theorem C15_never_ambiguous : forall cf F fo o x y, In o binary_ops ->
+  In (kind_of F x) grid_kinds -> In (kind_of F y) grid_kinds -> ev cf F fo o [x; y] <> RErr EAmbiguous.
 Proof. exact never_ambiguous2. Qed.
 
 (* ---- integer arithmetic is exact at any magnitude (Z) *)
-Theorem C15_int_exact : forall F fo (a b : Z),
-  ev F fo OAdd [VInt a; VInt b] = RVal (VInt (a + b)) /\
-  ev F fo OSub [VInt a; VInt b] = RVal (VInt (a - b)) /\
-  ev F fo OMul [VInt a; VInt b] = RVal (VInt (a * b)) /\
-  ev F fo UNeg [VInt a] = RVal (VInt (- a)) /\
-  ev F fo UPos [VInt a] = RVal (VInt a).
+Theorem C15_int_exact : forall cf F fo (a b : Z),
+  ev cf F fo OAdd [VInt a; VInt b] = RVal (VInt (a + b)) /\
+  ev cf F fo OSub [VInt a; VInt b] = RVal (VInt (a - b)) /\
+  ev cf F fo OMul [VInt a; VInt b] = RVal (VInt (a * b)) /\
+  ev cf F fo UNeg [VInt a] = RVal (VInt (- a)) /\
+  ev cf F fo UPos [VInt a] = RVal (VInt a).
 Proof. exact int_exact. Qed.
 
 (* ---- `/` on two integers floors; a = (a / b) * b + a mod b; the remainder has the sign of
    the divisor; quotient and remainder are the only pair with these properties; b = 0 is
    ZeroDivisionError *)
-Theorem C15_div_mod : forall F fo (a b : Z),
-  (b = 0%Z -> ev F fo ODiv [VInt a; VInt b] = RErr EZeroDiv /\ ev F fo OMod [VInt a; VInt b] = RErr EZeroDiv) /\
+Theorem C15_div_mod : forall cf F fo (a b : Z),
+  (b = 0%Z -> ev cf F fo ODiv [VInt a; VInt b] = RErr EZeroDiv /\ ev cf F fo OMod [VInt a; VInt b] = RErr EZeroDiv) /\
   (b <> 0%Z -> exists q r,
-     ev F fo ODiv [VInt a; VInt b] = RVal (VInt q) /\ ev F fo OMod [VInt a; VInt b] = RVal (VInt r) /\
+     ev cf F fo ODiv [VInt a; VInt b] = RVal (VInt q) /\ ev cf F fo OMod [VInt a; VInt b] = RVal (VInt r) /\
      (a = q * b + r)%Z /\ ((0 <= r < b)%Z \/ (b < r <= 0)%Z) /\
      (forall q' r', a = (q' * b + r')%Z -> ((0 <= r' < b)%Z \/ (b < r' <= 0)%Z) -> q' = q /\ r' = r)).
 Proof. exact div_mod. Qed.
 
 (* ---- mixed int/float arithmetic is float arithmetic on the converted integer (an integer
    too large to convert is an error, never a wrong value); float/float likewise *)
-Theorem C15_mixed_is_float : forall F fo (a : Z) (f g : F),
+Theorem C15_mixed_is_float : forall cf F fo (a : Z) (f g : F),
   let za := fo_of_Z F fo a in
-  ev F fo OAdd [VInt a; VFloat f] = fl2 F (fun x y => RVal (VFloat (fo_add F fo x y))) za (Some f) /\
-  ev F fo OAdd [VFloat f; VInt a] = fl2 F (fun x y => RVal (VFloat (fo_add F fo x y))) (Some f) za /\
-  ev F fo OSub [VInt a; VFloat f] = fl2 F (fun x y => RVal (VFloat (fo_sub F fo x y))) za (Some f) /\
-  ev F fo OSub [VFloat f; VInt a] = fl2 F (fun x y => RVal (VFloat (fo_sub F fo x y))) (Some f) za /\
-  ev F fo OMul [VInt a; VFloat f] = fl2 F (fun x y => RVal (VFloat (fo_mul F fo x y))) za (Some f) /\
-  ev F fo OMul [VFloat f; VInt a] = fl2 F (fun x y => RVal (VFloat (fo_mul F fo x y))) (Some f) za /\
-  ev F fo ODiv [VInt a; VFloat f] = fl2 F (fdivr F fo) za (Some f) /\
-  ev F fo ODiv [VFloat f; VInt a] = fl2 F (fdivr F fo) (Some f) za /\
-  ev F fo OAdd [VFloat f; VFloat g] = RVal (VFloat (fo_add F fo f g)) /\
-  ev F fo OSub [VFloat f; VFloat g] = RVal (VFloat (fo_sub F fo f g)) /\
-  ev F fo OMul [VFloat f; VFloat g] = RVal (VFloat (fo_mul F fo f g)) /\
-  ev F fo ODiv [VFloat f; VFloat g] = fdivr F fo f g.
+  ev cf F fo OAdd [VInt a; VFloat f] = fl2 F (fun x y => RVal (VFloat (fo_add F fo x y))) za (Some f) /\
+  ev cf F fo OAdd [VFloat f; VInt a] = fl2 F (fun x y => RVal (VFloat (fo_add F fo x y))) (Some f) za /\
+  ev cf F fo OSub [VInt a; VFloat f] = fl2 F (fun x y => RVal (VFloat (fo_sub F fo x y))) za (Some f) /\
+  ev cf F fo OSub [VFloat f; VInt a] = fl2 F (fun x y => RVal (VFloat (fo_sub F fo x y))) (Some f) za /\
+  ev cf F fo OMul [VInt a; VFloat f] = fl2 F (fun x y => RVal (VFloat (fo_mul F fo x y))) za (Some f) /\
+  ev cf F fo OMul [VFloat f; VInt a] = fl2 F (fun x y => RVal (VFloat (fo_mul F fo x y))) (Some f) za /\
+  ev cf F fo ODiv [VInt a; VFloat f] = fl2 F (fdivr F fo) za (Some f) /\
+  ev cf F fo ODiv [VFloat f; VInt a] = fl2 F (fdivr F fo) (Some f) za /\
+  ev cf F fo OAdd [VFloat f; VFloat g] = RVal (VFloat (fo_add F fo f g)) /\
+  ev cf F fo OSub [VFloat f; VFloat g] = RVal (VFloat (fo_sub F fo f g)) /\
+  ev cf F fo OMul [VFloat f; VFloat g] = RVal (VFloat (fo_mul F fo f g)) /\
+  ev cf F fo ODiv [VFloat f; VFloat g] = fdivr F fo f g.
 Proof. exact mixed_is_float. Qed.
 
 (* ---- the ordering operators are mutually consistent.  order_laws x y :=
      (x > y <-> y < x) /\ (x >= y <-> y <= x) /\ (x <= y <-> x < y \/ x = y) /\
      exactly one of x < y, x = y, x > y /\ (x != y <-> ~ x = y) /\ each of the six is a boolean *)
-Theorem C15_order_consistent_int : forall F fo (a b : Z),
-  order_laws F fo (VInt a) (VInt b) /\
-  (holds F fo OLt (VInt a) (VInt b) <-> (a < b)%Z) /\ (holds F fo OLe (VInt a) (VInt b) <-> (a <= b)%Z) /\
-  (holds F fo OGt (VInt a) (VInt b) <-> (a > b)%Z) /\ (holds F fo OGe (VInt a) (VInt b) <-> (a >= b)%Z) /\
-  (holds F fo OEq (VInt a) (VInt b) <-> a = b).
+Theorem C15_order_consistent_int : forall cf F fo (a b : Z),
+  order_laws cf F fo (VInt a) (VInt b) /\
+  (holds cf F fo OLt (VInt a) (VInt b) <-> (a < b)%Z) /\ (holds cf F fo OLe (VInt a) (VInt b) <-> (a <= b)%Z) /\
+  (holds cf F fo OGt (VInt a) (VInt b) <-> (a > b)%Z) /\ (holds cf F fo OGe (VInt a) (VInt b) <-> (a >= b)%Z) /\
+  (holds cf F fo OEq (VInt a) (VInt b) <-> a = b).
 Proof. exact order_int. Qed.
 
-Theorem C15_order_consistent_str : forall F fo (s t : list Z),
-  order_laws F fo (VStr s) (VStr t) /\
-  (holds F fo OLt (VStr s) (VStr t) <-> str_compare s t = Lt) /\
-  (holds F fo OEq (VStr s) (VStr t) <-> s = t) /\
-  ev F fo OAdd [VStr s; VStr t] = RVal (VStr (s ++ t)).
+Theorem C15_order_consistent_str : forall cf F fo (s t : list Z),
+  order_laws cf F fo (VStr s) (VStr t) /\
+  (holds cf F fo OLt (VStr s) (VStr t) <-> str_compare s t = Lt) /\
+  (holds cf F fo OEq (VStr s) (VStr t) <-> s = t) /\
+  ev cf F fo OAdd [VStr s; VStr t] = RVal (VStr (s ++ t)).
 Proof. exact order_str. Qed.
 
 (* what `<` on strings means: proper prefix, or smaller code point at the first difference *)
@@ -96,65 +98,65 @@ Theorem C15_str_lexicographic : forall a b : list Z,
     ((x = [] /\ y <> []) \/ (exists c d, x = c :: r /\ y = d :: s /\ (c < d)%Z)).
 Proof. exact str_compare_lt_spec. Qed.
 
-Theorem C15_order_transitive : forall F fo,
-  (forall a b c : Z, holds F fo OLt (VInt a) (VInt b) -> holds F fo OLt (VInt b) (VInt c) -> holds F fo OLt (VInt a) (VInt c)) /\
-  (forall s t u : list Z, holds F fo OLt (VStr s) (VStr t) -> holds F fo OLt (VStr t) (VStr u) -> holds F fo OLt (VStr s) (VStr u)).
-Proof. exact (fun F fo => conj (int_lt_trans F fo) (str_lt_trans F fo)). Qed.
+Theorem C15_order_transitive : forall cf F fo,
+  (forall a b c : Z, holds cf F fo OLt (VInt a) (VInt b) -> holds cf F fo OLt (VInt b) (VInt c) -> holds cf F fo OLt (VInt a) (VInt c)) /\
+  (forall s t u : list Z, holds cf F fo OLt (VStr s) (VStr t) -> holds cf F fo OLt (VStr t) (VStr u) -> holds cf F fo OLt (VStr s) (VStr u)).
+Proof. exact (fun cf F fo => conj (int_lt_trans cf F fo) (str_lt_trans cf F fo)). Qed.
 
 (* numbers, floats included (NaN excluded): the premises are the laws assumed of the float
    three-way comparison - antisymmetric, undefined exactly on NaN; integer/float comparison
    (fo_cmpZ, exact) undefined exactly on NaN *)
-Theorem C15_order_consistent_num : forall F fo (nan : F -> bool),
+Theorem C15_order_consistent_num : forall cf F fo (nan : F -> bool),
   (forall f g, fo_compare F fo g f = option_map CompOpp (fo_compare F fo f g)) ->
   (forall f g, fo_compare F fo f g = None <-> (nan f = true \/ nan g = true)) ->
   (forall z f, fo_cmpZ F fo z f = None <-> nan f = true) ->
-  forall x y, number F nan x -> number F nan y -> order_laws F fo x y.
+  forall x y, number F nan x -> number F nan y -> order_laws cf F fo x y.
 Proof. exact order_num. Qed.
 
 (* ---- null orders below every non-null value - of ANY kind of the model, also the
    non-scalar ones - and is neither below nor above itself *)
-Theorem C15_null_least : forall F fo (v : val F), kind_of F v <> KNull ->
-  holds F fo OLt VNull v /\ holds F fo OLe VNull v /\ fails F fo OGt VNull v /\ fails F fo OGe VNull v /\
-  fails F fo OLt v VNull /\ fails F fo OLe v VNull /\ holds F fo OGt v VNull /\ holds F fo OGe v VNull.
+Theorem C15_null_least : forall cf F fo (v : val F), kind_of F v <> KNull ->
+  holds cf F fo OLt VNull v /\ holds cf F fo OLe VNull v /\ fails cf F fo OGt VNull v /\ fails cf F fo OGe VNull v /\
+  fails cf F fo OLt v VNull /\ fails cf F fo OLe v VNull /\ holds cf F fo OGt v VNull /\ holds cf F fo OGe v VNull.
 Proof. exact null_least. Qed.
 
-Theorem C15_null_null : forall F fo,
-  fails F fo OLt VNull VNull /\ holds F fo OLe VNull VNull /\ fails F fo OGt VNull VNull /\
-  holds F fo OGe VNull VNull /\ holds F fo OEq VNull VNull.
+Theorem C15_null_null : forall cf F fo,
+  fails cf F fo OLt VNull VNull /\ holds cf F fo OLe VNull VNull /\ fails cf F fo OGt VNull VNull /\
+  holds cf F fo OGe VNull VNull /\ holds cf F fo OEq VNull VNull.
 Proof. exact null_null. Qed.
 
-Theorem C15_null_not_equal : forall F fo (v : val F), kind_of F v <> KNull -> (forall k, v <> VOpaque k) ->
-  fails F fo OEq VNull v /\ fails F fo OEq v VNull /\ holds F fo ONeq VNull v /\ holds F fo ONeq v VNull.
+Theorem C15_null_not_equal : forall cf F fo (v : val F), kind_of F v <> KNull -> (forall k, v <> VOpaque k) ->
+  fails cf F fo OEq VNull v /\ fails cf F fo OEq v VNull /\ holds cf F fo ONeq VNull v /\ holds cf F fo ONeq v VNull.
 Proof. exact null_not_equal. Qed.
 
 (* ---- a boolean is never accepted as a number: every arithmetic, ordering and repetition
    operator (+ - * / mod < <= > >=), a boolean on either side, ANY value of ANY kind on the
    other side (lists and tuples included: repetition) gives NoMatch - except the documented
    null-ordering rule, where the boolean is just "non-null" (C15_null_least) *)
-Theorem C15_bool_not_number : forall F fo o (b : bool) (v : val F), In o arith_order_ops ->
+Theorem C15_bool_not_number : forall cf F fo o (b : bool) (v : val F), In o arith_order_ops ->
   (cmp_of o = None \/ kind_of F v <> KNull) ->
-  ev F fo o [VBool b; v] = RErr ENoMatch /\ ev F fo o [v; VBool b] = RErr ENoMatch.
+  ev cf F fo o [VBool b; v] = RErr ENoMatch /\ ev cf F fo o [v; VBool b] = RErr ENoMatch.
 Proof. exact bool_rejected. Qed.
 
-Theorem C15_bool_not_number_unary : forall F fo (b : bool),
-  ev F fo UPos [VBool b] = RErr ENoMatch /\ ev F fo UNeg [VBool b] = RErr ENoMatch.
+Theorem C15_bool_not_number_unary : forall cf F fo (b : bool),
+  ev cf F fo UPos [VBool b] = RErr ENoMatch /\ ev cf F fo UNeg [VBool b] = RErr ENoMatch.
 Proof. exact bool_rejected_unary. Qed.
 
 (* ---- repetition by a genuine integer: commutes, a count <= 0 gives the empty string, 1 is
    neutral, the length multiplies (strings of 2^31 code points or more are outside what the
    model allocates) *)
-Theorem C15_repetition : forall F fo (s : list Z) (n : Z),
-  ev F fo OMul [VStr s; VInt n] = ev F fo OMul [VInt n; VStr s] /\
-  ev F fo OMul [VList s; VInt n] = ev F fo OMul [VInt n; VList s] /\
-  ((- max_index - 1 <= n <= 0)%Z -> ev F fo OMul [VStr s; VInt n] = RVal (VStr [])) /\
-  ((Z.of_nat (length s) < alloc_limit)%Z -> ev F fo OMul [VStr s; VInt 1] = RVal (VStr s)) /\
-  (forall r, ev F fo OMul [VStr s; VInt n] = RVal (VStr r) -> (0 < n)%Z ->
+Theorem C15_repetition : forall cf F fo (s : list Z) (n : Z),
+  ev cf F fo OMul [VStr s; VInt n] = ev cf F fo OMul [VInt n; VStr s] /\
+  ev cf F fo OMul [VList s; VInt n] = ev cf F fo OMul [VInt n; VList s] /\
+  ((- max_index - 1 <= n <= 0)%Z -> ev cf F fo OMul [VStr s; VInt n] = RVal (VStr [])) /\
+  ((Z.of_nat (length s) < alloc_limit)%Z -> ev cf F fo OMul [VStr s; VInt 1] = RVal (VStr s)) /\
+  (forall r, ev cf F fo OMul [VStr s; VInt n] = RVal (VStr r) -> (0 < n)%Z ->
              Z.of_nat (length r) = (Z.of_nat (length s) * n)%Z).
 Proof. exact repetition_laws. Qed.
 
 (* ---- the regenerated file is well-formed: kinds in the model's order, every mapped
    overload has one row per argument and one column per kind *)
-Example C15_gen_selfcheck : gen_kinds = all_kinds /\ rows_wellformed = true.
+Example C15_gen_selfcheck : gen_kinds = all_kinds /\ forall cf, rows_wellformed cf = true.
 Proof. exact (conj gen_kinds_ok rows_wellformed_checked). Qed.
 
 (* ---- non-vacuity ---- *)
@@ -178,16 +180,16 @@ Qed.
 
 (* the model at work on the executable float instance *)
 Example C15_examples :
-  ev PrimFloat.float PF.ops ODiv [VInt (-7)%Z; VInt 2%Z] = RVal (VInt (-4)%Z) /\
-  ev PrimFloat.float PF.ops OMod [VInt (-7)%Z; VInt 2%Z] = RVal (VInt 1%Z) /\
-  ev PrimFloat.float PF.ops OMod [VInt 7%Z; VInt (-2)%Z] = RVal (VInt (-1)%Z) /\
-  ev PrimFloat.float PF.ops OMul [VInt (10 ^ 40)%Z; VInt (10 ^ 40)%Z] = RVal (VInt (10 ^ 80)%Z) /\
-  ev PrimFloat.float PF.ops OLt [VStr [97%Z]; VStr [97; 98]%Z] = RVal (VBool true) /\
-  ev PrimFloat.float PF.ops OLt [VNull; VBool false] = RVal (VBool true) /\
-  ev PrimFloat.float PF.ops OLt [VBool false; VInt 1%Z] = RErr ENoMatch /\
-  ev PrimFloat.float PF.ops OMul [VStr [97; 98]%Z; VInt 2%Z] = RVal (VStr [97; 98; 97; 98]%Z) /\
-  ev PrimFloat.float PF.ops OMul [VList [1; 2]%Z; VBool true] = RErr ENoMatch /\
-  ev PrimFloat.float PF.ops OAdd [VStr [97%Z]; VInt 1%Z] = RErr ENoMatch.
+  ev CDefault PrimFloat.float PF.ops ODiv [VInt (-7)%Z; VInt 2%Z] = RVal (VInt (-4)%Z) /\
+  ev CDefault PrimFloat.float PF.ops OMod [VInt (-7)%Z; VInt 2%Z] = RVal (VInt 1%Z) /\
+  ev CDefault PrimFloat.float PF.ops OMod [VInt 7%Z; VInt (-2)%Z] = RVal (VInt (-1)%Z) /\
+  ev CDefault PrimFloat.float PF.ops OMul [VInt (10 ^ 40)%Z; VInt (10 ^ 40)%Z] = RVal (VInt (10 ^ 80)%Z) /\
+  ev CDefault PrimFloat.float PF.ops OLt [VStr [97%Z]; VStr [97; 98]%Z] = RVal (VBool true) /\
+  ev CDefault PrimFloat.float PF.ops OLt [VNull; VBool false] = RVal (VBool true) /\
+  ev CDefault PrimFloat.float PF.ops OLt [VBool false; VInt 1%Z] = RErr ENoMatch /\
+  ev CDefault PrimFloat.float PF.ops OMul [VStr [97; 98]%Z; VInt 2%Z] = RVal (VStr [97; 98; 97; 98]%Z) /\
+  ev CDefault PrimFloat.float PF.ops OMul [VList [1; 2]%Z; VBool true] = RErr ENoMatch /\
+  ev CDefault PrimFloat.float PF.ops OAdd [VStr [97%Z]; VInt 1%Z] = RErr ENoMatch.
 Proof. vm_compute. repeat split. Qed.
 
 (* ---- F9 (repaired in /repo): the repetition overloads used to be typed with the plain
